@@ -63,7 +63,8 @@ def run(c):
                 if s.oracle.get("fixedPointBad"):
                     c.violation("generated-fixedpoint:%s" % s.id, "C12: in %s (%s) the stored values of %s differ from what their definitions denote in the loaded database (a reference was resolved before what it refers to was loaded)" % (s.id, s.desc[:80], s.oracle["fixedPointBad"][:4]),
                                 lc.replay_body(s, {"names": s.oracle["fixedPointBad"][:50]}), found=True)
-                if s.impl_errors():
+                # (the unit/quantity twin with two docs is reported as a doc conflict by design of the scenario)
+                if [e for e in s.impl_errors() if not e.startswith("doc-conflict")]:
                     c.violation("generated-errors:%s" % s.id, "C12: forward references do not resolve: loading %s (%s) reports %s" % (s.id, s.desc[:100], s.impl_errors()[:3]),
                                 lc.replay_body(s, {"errors": s.impl_errors()[:50]}), found=True)
         # no ordering may report an error the reference ordering does not
